@@ -308,12 +308,17 @@ def mc(ctx, module, cfg_text, name, expect="ok", **kw):
     return r
 
 
-def apalache(ctx, module, name, cinit, init, inv, length, expect_ok=True, timeout=600):
+def apalache(ctx, module, name, cinit, init, inv, length, expect_ok=True, timeout=600, cinit_def=None):
     """Apalache bounded check used for inductive-invariant arguments (Init => Inv at length 0, Inv /\\ Next => Inv' at length 1)."""
     d = os.path.join(ctx.work, "apa-" + name)
     shutil.rmtree(d, ignore_errors=True)
     os.makedirs(d)
     shutil.copy(os.path.join(SPEC, module + ".tla"), d)
+    if cinit_def:     # constants too rich for the command line: a wrapper module defines the constant initialiser
+        wrapper = module + "_cfg"
+        open(os.path.join(d, wrapper + ".tla"), "w").write(
+            "---- MODULE %s ----\nEXTENDS %s\n%s == %s\n====\n" % (wrapper, module, cinit, cinit_def))
+        module = wrapper
     cmd = ["apalache-mc", "check", "--cinit=" + cinit, "--init=" + init, "--inv=" + inv, "--length=%d" % length,
            "--out-dir=" + os.path.join(d, "out"), module + ".tla"]
     t = time.time()
